@@ -72,12 +72,51 @@ def run(p: Project, tier: str) -> Result:
     check_counter_instant(nws, r)
     check_counter_unit(p, nws, r)
     check_cycle_time(p, nws, r)
+    check_item_stamps(p, r)
     check_timestamps(p, r)
     return r
 
 
 COUNTED = {'num_item_processed': 'push', 'num_item_generated': 'create', 'num_item_received': 'receive'}
 COUNTERS = ('num_item_processed', 'num_item_generated', 'num_item_received', 'num_item_discarded')
+
+
+def check_item_stamps(p, r):
+    """R10: the nodes report every pull / push of an item with `item.update_node_event(node, env, 'entry' | 'exit')` and rely on the stamp being the
+    clock of that call: on every completing path of the 'entry' branch `timestamp_node_entry` is assigned the current clock, on every path of the
+    'exit' branch `timestamp_node_exit` is.  A stamp that is skipped under a condition ("same node as last time") leaves an older entry time behind
+    a newer exit time: the item's time stamps go backwards along its route."""
+    r.rule('C18.R10', 'BaseFlowItem.update_node_event stamps entry / exit with the current clock on every path of the respective branch', 2)
+    try:
+        ci = p.cls('helper/baseflowitem.py', 'BaseFlowItem')
+    except Exception:       # noqa: BLE001
+        raise AnalysisError('anchor vanished: helper/baseflowitem.py::BaseFlowItem')
+    fi = ci.methods.get('update_node_event')
+    if fi is None:
+        raise AnalysisError('anchor vanished: BaseFlowItem.update_node_event')
+    r.analysed_functions.add(fi.key)
+    ex = paths.Explorer(p, ci.key, tracked=set(), atomic=set(), unroll=1, interrupt_edges=False)
+    ps = [pa for pa in ex.paths(fi) if not pa.raises]
+    for kind, attr in (('entry', 'timestamp_node_entry'), ('exit', 'timestamp_node_exit')):
+        key = f'{fi.key}::stamps-{kind}-with-the-clock'
+        bad = None
+        n = 0
+        for pa in ps:
+            sel = [e for e in pa.events if e.kind == 'cond' and e.d.get('operands') and e.operands[0] in ('Eq', 'NotEq')
+                   and ('const', kind) in (e.operands[1], e.operands[2])]
+            if not any((e.operands[0] == 'Eq') == bool(e.polarity) for e in sel):
+                continue
+            n += 1
+            sets = [e for e in pa.events if e.kind == 'setattr' and e.attr == attr]
+            if not sets or not (isinstance(sets[-1].value, tuple) and sets[-1].value and sets[-1].value[0] == 'now'):
+                bad = pa
+        if n == 0:
+            r.fail('C18.R10', key, f'no path of update_node_event handles event_type == {kind!r}', src(fi.module), fi.node.lineno)
+        elif bad is not None:
+            r.fail('C18.R10', key, f'a path of the {kind!r} branch does not assign {attr} the current clock: the item keeps the stamp of an earlier visit and its '
+                                   f'time stamps go backwards along its route', src(fi.module), fi.node.lineno, bad.describe())
+        else:
+            r.ok('C18.R10', key, f'{attr} = env.now on {n} path(s)', src(fi.module), fi.node.lineno)
 
 
 def check_counter_unit(p, nws, r):
